@@ -84,6 +84,7 @@ def dispatch (prop mode : String) : Option (List String → String) :=
   | "C09", "specfilt" => some FilteringDriver.spec
   | "C11", "modeldyn" => some EnvDynDriver.model
   | "C07", "modeldyn" => some EnvDynDriver.model
+  | "C08", "modeldyn" => some EnvDynDriver.model
   | "C07", "specdyn" => some EnvDynDriver.spec
   | "C11", "specdyn" => some EnvDynDriver.spec
   | "C08", "modelhint" => some TreeHintDriver.model
